@@ -2,7 +2,7 @@
 import sys, threading
 sys.setrecursionlimit(20000)
 threading.stack_size(256 * 1024 * 1024)
-from . import check, verify, smt
+from . import check, verify, smt, re_model
 from .path import PathState, PathAbort, RetryPath, Unsupported
 from .interp import Interp, PyRaise
 import z3, traceback
